@@ -78,13 +78,16 @@ fn json_g<K: EnrKey>(s: &str, deep: bool) -> DecOut {
 }
 
 /// `Vec<Enr<K>>::decode`: Some(Ok(views), consumed) / Some(Err) / None on panic
-fn list_g<K: EnrKey>(buf: &[u8]) -> Option<(Option<Vec<View>>, usize)> {
+fn list_g<K: EnrKey>(buf: &[u8]) -> Option<(Option<(Vec<View>, Vec<u8>)>, usize)> {
     guard("Vec<Enr>::decode", || {
         let mut b = buf;
         let r = Vec::<Enr<K>>::decode(&mut b);
         (
-            r.ok()
-                .map(|v| v.iter().map(|e| inspect(e, false)).collect()),
+            r.ok().map(|v| {
+                // and back: the library's own encoding of the list it just read
+                let re = alloy_rlp::encode(&v);
+                (v.iter().map(|e| inspect(e, false)).collect(), re)
+            }),
             buf.len() - b.len(),
         )
     })
@@ -119,6 +122,6 @@ pub fn json_as(dec: DecType, s: &str, deep: bool) -> DecOut {
     dispatch!(dec, json_g, s, deep)
 }
 
-pub fn list_as(dec: DecType, buf: &[u8]) -> Option<(Option<Vec<View>>, usize)> {
+pub fn list_as(dec: DecType, buf: &[u8]) -> Option<(Option<(Vec<View>, Vec<u8>)>, usize)> {
     dispatch!(dec, list_g, buf)
 }
